@@ -301,6 +301,19 @@ impl Check for C05 {
                 let fired = io.borrow().errors_returned.len() > before;
                 if cfg == Cfg::Terminal && fired {
                     out.probes.hit("save_terminal_err_reported");
+                    // history step: after the reported failure the same library is saved again, on the same thread, to a
+                    // healthy file; that attempt must succeed and produce exactly the fault-free text
+                    fs.plan(OUT, FilePlan::default());
+                    match guard(|| lib.save(fs.sp(OUT))) {
+                        Err(p) => out.violation = Some(panic_violation("LefLibrary::save(retry after a failed save)", &p, art(Value::Null))),
+                        Ok(Err(e)) => out.violation = Some(v("write-failed", format!("save/after-failed-save:{}", lef_err_sig(&e)), format!("saving again after a failed save fails on a healthy file: {:?}", e), Value::Null)),
+                        Ok(Ok(())) => {
+                            out.probes.hit("history:save_again_after_failed_save");
+                            if fs.get(OUT).unwrap_or_default() != s0.as_bytes() {
+                                out.violation = Some(v("mismatch", "save/after-failed-save/bytes".into(), "saving again after a failed save writes a different text than the fault-free one".into(), Value::Null));
+                            }
+                        }
+                    }
                 } else {
                     out.violation = Some(v("write-failed", format!("save/{}:{}", cfg.name(), lef_err_sig(&e)), format!("save fails without a terminal fault: {:?}", e), Value::Null));
                 }
